@@ -7,7 +7,8 @@ from pyvc.sym import (VInt, VBool, VStr, VRef, VOpt, INT, BOOL, STR, REF, TList,
 from contracts.common import add_common, WF, wf_theory, desc, preorder_facts
 
 VERIFY = ["trees.transform.negra_mark_heads", "trees.transformconst.get_headpos_by_rule"]
-SHARDS = {"trees.transform.negra_mark_heads": 8}
+WIP = ["trees.transform.mark_heads_by_rules"]
+SHARDS = {"trees.transform.negra_mark_heads": 8, "trees.transform.mark_heads_by_rules": 8}
 TRUSTED = ["contracts of trees.preorder / trees.children used at call sites (both verified under C19); wf_theory"]
 ASSUMPTIONS = ["every node carries an 'edge' entry (value may be None); Tree heap model of DESIGN 3.3",
                "get_headpos_by_rule: the rule table is a dict str -> list of (direction, 'cat cat ...') with symbolic "
@@ -143,6 +144,8 @@ def add_headpos(reg):
         fallback = z3.If(e == R.n, 0, z3.If(tostr(R.get(e).items[0]) == LTR, n - 1, 0))
         return VBool(z3.And(
             z3.Implies(z3.Not(key), res == toint(default)),
+            # always one of: a child index, the first, the last child
+            z3.Implies(key, z3.Or(res == 0, res == n - 1, z3.And(0 <= res, res < n))),
             z3.ForAll([e], z3.Implies(z3.And(key, is_e), z3.And(
                 z3.ForAll([i0], z3.Implies(
                     z3.And(0 <= i0, i0 < n, listed(S, i0, e),
@@ -168,6 +171,7 @@ def build(reg):
     c20.build(reg)                        # parse_label (proved under C20) is called by get_headpos_by_rule
     add_common(reg)
     add_headpos(reg)
+    add_mark_heads_by_rules(reg)
 
     def requires(S, tree, params):
         H = S.H
@@ -221,5 +225,124 @@ def build(reg):
         ensures={"one_head_per_constituent_as_the_heuristic_says": post},
         result_type=REF,
         solver_hints={"inv0.keep": {"cli_s": 60}, "post.": {"cli_s": 30}, "safe.": {"cli_s": 20}},
+        loops={0: dict(inv=outer_inv), 1: dict(inv=inner_inv)},
+    ))
+
+
+# ----------------------------------------------------------------------------------------------------------------------
+# mark_heads_by_rules: preset selection (ValueError otherwise), then for every constituent exactly the child that
+# get_headpos_by_rule names (over its proved contract) is marked
+# ----------------------------------------------------------------------------------------------------------------------
+HPW = z3.Function("headpos_witness", z3.IntSort(), z3.BoolSort())      # trigger carrier (always true)
+
+
+def add_mark_heads_by_rules(reg):
+    from pyvc.core import named_result
+    from pyvc.sym import VRec, VList, TDict, TTuple
+    from pyvc import sym
+    RULES_T = TDict(TList(TTuple(STR, STR)))
+    hp = reg.get("trees.transformconst.get_headpos_by_rule")
+    pl = reg.get("trees.trees.parse_label")
+    NOPARAMS = VRec("params", {"has": {"gf_separator": z3.BoolVal(False)}, "val": {"gf_separator": VStr(z3.StringVal(""))}})
+
+    def plabel(H, x):
+        """trees.parse_label(x.data['label']).label"""
+        return named_result(pl, [VStr(z3.Select(H.f["val_label"], x.t)), NOPARAMS]).fields["label"]
+
+    def table(S, rules):
+        """the rule table the run uses, as a symbolic dict"""
+        if isinstance(rules, dict) and rules:
+            return sym.dict_from_concrete(rules, RULES_T.vt)
+        if isinstance(rules, sym.VDict):
+            return rules
+        return sym.VDict(STR, RULES_T.vt, lambda k_: VBool(z3.BoolVal(False)),
+                         lambda k_: sym.fresh(RULES_T.vt, "empty_dict_val"))
+
+    def marked_rel(S, H, p, rules):
+        """exactly one child of p is marked, every other child is marked as non-head, and the marked child is a
+        position get_headpos_by_rule's contract allows for (category of p, categories of its children, rules)"""
+        C = H.ochildren(p)
+        hd, j = z3.Int(fresh_name("hd")), z3.Int(fresh_name("mj"))
+        labels = VList(C.n, get=lambda i: plabel(H, C.get(i)), et=STR)
+
+        class S2(object):
+            pass
+        S2.H = H
+        S2.parent_label, S2.children_label, S2.rules = plabel(H, p), labels, table(S, rules)
+        allowed = tobool(hp.ensures["the_only_listed_child_is_the_head"](S2, S2.parent_label, labels, S2.rules,
+                                                                           VInt(z3.IntVal(0)), VInt(hd)))
+        flags = qforall([j], z3.Implies(z3.And(0 <= j, j < C.n),
+                                        z3.And(H.has(C.get(j), "head").t, H.data(C.get(j), "head").t == (j == hd))),
+                        [C.get(j).t])
+        return z3.Exists([hd], z3.And(HPW(hd), 0 <= hd, hd < C.n, allowed, flags), patterns=[HPW(hd)])
+
+    def requires(S, tree, params):
+        H = S.H
+        x = z3.Int(fresh_name("rx"))
+        lab_ok = lambda r: z3.And(z3.Select(H.f["has_label"], r), z3.Not(z3.Select(H.f["none_label"], r)))
+        return conj(WF(H, tree), tree != None, wf_theory(H), VBool(H.parent_t(tree.t) == 0),
+                    VBool(qforall([x], z3.Implies(tobool(WF(H, VRef(x))), lab_ok(x)),
+                                  [z3.Select(H.f["val_label"], x)])))
+
+    def raises_value_error(S, tree, params):
+        has, val = params.fields["has"], params.fields["val"]
+        preset = tostr(val["mark_heads_preset"])
+        return VBool(z3.Or(
+            z3.And(has["mark_heads_preset"], has["mark_heads_rulefile"]),
+            z3.And(has["mark_heads_preset"], preset != z3.StringVal("negra"), preset != z3.StringVal("ptb")),
+            z3.And(z3.Not(has["mark_heads_preset"]), has["mark_heads_rulefile"],
+                   z3.Length(tostr(val["mark_heads_rulefile"])) != 0),
+            z3.And(z3.Not(has["mark_heads_preset"]), z3.Not(has["mark_heads_rulefile"]))))
+
+    def untouched_outside(H1, H0, inside):
+        x = z3.Int(fresh_name("ux"))
+        return z3.ForAll([x], z3.Implies(z3.Not(inside(x)), z3.And(
+            z3.Select(H1.f["has_head"], x) == z3.Select(H0.f["has_head"], x),
+            z3.Select(H1.f["val_head"], x) == z3.Select(H0.f["val_head"], x))))
+
+    def outer_inv(S):
+        H, tree, it = S.H, S.tree, toint(S.it)
+        P = H.pre(tree)
+        k = z3.Int(fresh_name("ok"))
+        rules = S.final("rules")
+        return conj(
+            VBool(z3.And(H.has(tree, "head").t, z3.Not(H.data(tree, "head").t))),
+            VBool(qforall([k], z3.Implies(z3.And(0 <= k, k < it, H.nchild_t(P.get(k).t) > 0),
+                                          marked_rel(S, H, P.get(k), rules)), [P.get(k).t])))
+
+    def comp_inv(S):
+        # the list comprehension over the children: nothing to maintain beyond what the executor tracks
+        return VBool(z3.BoolVal(True))
+
+    def inner_inv(S):
+        H, sub, it, hd = S.H, S.subtree, toint(S.it), toint(S.headpos)
+        C = H.ochildren(sub)
+        j = z3.Int(fresh_name("ij"))
+        Hh = S.pre.H
+        return conj(
+            VBool(HPW(hd)),
+            VBool(qforall([j], z3.Implies(z3.And(0 <= j, j < it),
+                                          z3.And(H.has(C.get(j), "head").t, H.data(C.get(j), "head").t == (j == hd))),
+                          [C.get(j).t])),
+            VBool(untouched_outside(H, Hh, lambda x: z3.And(H.parent_t(x) == sub.t, x != 0))))
+
+    def post(S, tree, params, result):
+        H = S.H
+        p = z3.Int(fresh_name("pp"))
+        rules = S.final("rules")
+        return VBool(z3.And(
+            result.t == tree.t,
+            H.has(tree, "head").t, z3.Not(H.data(tree, "head").t),
+            z3.ForAll([p], z3.Implies(z3.And(tobool(WF(H, VRef(p))), tobool(desc(H, tree, VRef(p))),
+                                             H.nchild_t(p) > 0), marked_rel(S, H, VRef(p), rules)))))
+
+    reg.add(Contract(
+        target="trees.transform.mark_heads_by_rules", prop="C15", args=dict(tree=REF),
+        params=dict(mark_heads_preset=STR, mark_heads_rulefile=STR),
+        requires=requires, modifies=HEAD, raises={"ValueError": raises_value_error},
+        ensures={"one_head_per_constituent_where_the_rules_say": post},
+        result_type=REF,
+        solver_hints={"inv0.keep": {"cli_s": 60}, "post.": {"cli_s": 30}, "safe.": {"cli_s": 20},
+                      "pre@": {"cli_s": 30}},
         loops={0: dict(inv=outer_inv), 1: dict(inv=inner_inv)},
     ))
